@@ -36,6 +36,10 @@ func roundTripValue(g *gen.G, d int, tomlSafe bool) any {
 		case 0:
 			return g.Int()
 		case 1:
+			if g.P(0.25) {
+				// doubles beyond the 64-bit integers: JSON writes those below 1e21 as plain digits
+				return []float64{1e19, -2.5e20, 9223372036854775808, 18446744073709551616, 1e21, -1e300}[g.N(6)]
+			}
 			return g.Float()
 		case 2:
 			return g.P(0.5)
